@@ -34,7 +34,19 @@ func main() {
 	if !ok {
 		die("unknown property %q", *prop)
 	}
-	g(&rng{s: *seed*0x9e3779b97f4a7c15 + 12345}, *n)
+	// the seed is hashed (two rounds of the splitmix64 finaliser) before it becomes the generator state: with a plain
+	// multiple of the generator's own increment the stream of seed k+1 would be the stream of seed k shifted by one draw
+	g(&rng{s: mixSeed(*seed)}, *n)
 	bw.Flush()
 	fmt.Fprintf(os.Stderr, "harness: %s seed=%d cases=%d\n", *prop, *seed, out.count)
+}
+
+func mixSeed(seed uint64) uint64 {
+	z := seed ^ 0xd6e8feb86659fd93
+	for i := 0; i < 2; i++ {
+		z = (z ^ (z >> 32)) * 0xd6e8feb86659fd93
+		z = (z ^ (z >> 29)) * 0x9fb21c651e98df25
+		z ^= z >> 32
+	}
+	return z
 }
